@@ -52,6 +52,7 @@ func checkC13(c *core.Ctx) error {
 	checkGammaDispatcher(c)
 	checkRecurrences(c)
 	checkMgamma(c)
+	checkPolygammaSeries(c)
 	return nil
 }
 
